@@ -58,7 +58,7 @@ theorem report_of_host_not_running_is_silent (l : Loop) (h : Host) (count : Nat)
 
 /-- nobody in the fleet runs replica `rid` of shard `s` -/
 def Loop.NotRunning (s rid : Nat) (l : Loop) : Prop :=
-  ∀ h ∈ l.hosts, ∀ rep, h.run? s = some rep → rep.id ≠ rid
+  ∀ a h, l.host? a = some h → ∀ rep, h.run? s = some rep → rep.id ≠ rid
 
 /-- event sequences of the closed loop along which `P` holds in every state gone through -/
 inductive StepsWhile (size : Nat → Nat) (P : Loop → Prop) : Loop → Loop → Prop
@@ -98,11 +98,8 @@ theorem step_kept (size : Nat → Nat) (l l' : Loop) (s rid : Nat) (hnr : l.NotR
              else { h0 with reportCount := h0.reportCount + 1,
                             queue := h0.queue ++ db2.lookupRequests a })).db = db2 := by
           unfold Loop.setHost; rfl
-        have hmem : h0 ∈ l.hosts := by
-          unfold Loop.host? at hh
-          exact List.mem_of_find?_eq_some hh
         have hsil : ¬ (Cmd.report (l.buildReport { h0 with reportCount := h0.reportCount + 1 } (h0.reportCount + 1))).lists s rid :=
-          report_of_host_not_running_is_silent l _ _ s rid (fun rep hrun => hnr h0 hmem rep hrun)
+          report_of_host_not_running_is_silent l _ _ s rid (fun rep hrun => hnr a h0 hh rep hrun)
         have hu := applyReport_image l.db db2 _ n2 ha
         have hc2 : c' ∈ db2.image.shards := by
           have : c' ∈ (({ l with db := db2 } : Loop).setHost
